@@ -166,12 +166,16 @@ struct Case {
     cols: usize,
     index: u64,
     width: usize,
+    /// wide shapes use the first two content classes only (empty, one short token)
+    #[serde(default)]
+    reduced: bool,
 }
 
 struct Shape {
     rows: usize,
     cols: usize,
     n: u64,
+    reduced: bool,
 }
 struct S {
     which: u8,
@@ -183,9 +187,29 @@ fn shapes(tier: Tier, ncontents: usize) -> Vec<Shape> {
         Tier::Quick => vec![(1, 1), (1, 2), (1, 3), (2, 1), (2, 2), (2, 3)],
         Tier::Thorough => vec![(1, 1), (1, 2), (1, 3), (2, 1), (2, 2), (2, 3), (3, 1), (3, 2), (1, 4), (2, 4)],
     };
-    list.into_iter().map(|(r, c)| Shape { rows: r, cols: c, n: n_tables(r, c, ncontents) }).collect()
+    let mut v: Vec<Shape> = list.into_iter().map(|(r, c)| Shape { rows: r, cols: c, n: n_tables(r, c, ncontents), reduced: false }).collect();
+    // wide tables: all colspan tilings, cells empty or one short token
+    let wide: Vec<(usize, usize)> = match tier {
+        Tier::Quick => vec![(1, 5), (1, 6), (1, 8)],
+        Tier::Thorough => vec![(1, 5), (1, 6), (1, 8), (2, 5), (3, 3), (1, 10)],
+    };
+    v.extend(wide.into_iter().map(|(r, c)| Shape { rows: r, cols: c, n: n_tables(r, c, 2), reduced: true }));
+    v
 }
-fn table_for(which: u8, rows: usize, cols: usize, index: u64) -> TableCase {
+fn table_for(which: u8, rows: usize, cols: usize, index: u64, reduced: bool) -> TableCase {
+    if reduced {
+        return if which == 6 {
+            table_case(rows, cols, &CONTENTS06[..2], index, &|h| h.to_string())
+        } else {
+            let mut t = table_case(rows, cols, &["", "X1"], index, &|h| h.to_string());
+            let mut html = t.html.clone();
+            for l in 'a'..='z' {
+                html = html.replace(&format!(">{l}1<"), &format!(">{}<", CONTENTS05[1]));
+            }
+            t.html = html;
+            t
+        };
+    }
     // C06 uses one unique letter per cell; C05 uses fixed content classes (mapped to the
     // same cell bookkeeping: "empty" = first class)
     if which == 6 {
@@ -446,9 +470,9 @@ impl Scope for S {
             si += 1;
         }
         let sh = &self.shapes[si];
-        let t = table_for(self.which, sh.rows, sh.cols, u);
+        let t = table_for(self.which, sh.rows, sh.cols, u, sh.reduced);
         for width in 1..=self.maxw {
-            let c = Case { rows: sh.rows, cols: sh.cols, index: u, width };
+            let c = Case { rows: sh.rows, cols: sh.cols, index: u, width, reduced: sh.reduced };
             if self.which == 5 {
                 check05(&t, &c, cx);
             } else {
@@ -458,8 +482,8 @@ impl Scope for S {
     }
     fn info(&self) -> Info {
         Info {
-            rule: format!("all regular tables of the listed shapes, every row independently tiled by every composition of the column count into colspans, every cell content from 5 (C05: 6) classes ({}), x every width; plain decorator with borders; the output is parsed into a character-cell grid; non-trivial = laid out side by side with >= 2 columns", if self.which == 5 { "empty, short, three words, two lines, wide characters, a nested 1x2 table" } else { "empty, one token, three words, two lines, a long word – one unique letter per cell, one digit per word" }),
-            bounds: json!({"shapes": self.shapes.iter().map(|s| json!({"rows": s.rows, "cols": s.cols, "tables": s.n})).collect::<Vec<_>>(), "widths": format!("1..={}", self.maxw), "contents": if self.which == 5 { CONTENTS05.to_vec() } else { CONTENTS06.to_vec() }}),
+            rule: format!("all regular tables of the listed shapes, every row independently tiled by every composition of the column count into colspans, every cell content from 6 classes ({}; wide shapes: empty or one token), x every width; plain decorator with borders; the output is parsed into a character-cell grid; non-trivial = laid out side by side with >= 2 columns", if self.which == 5 { "empty, short, three words, two lines, wide characters, a nested 1x2 table" } else { "empty, one token, three words, two lines, a long word – one unique letter per cell, one digit per word" }),
+            bounds: json!({"shapes": self.shapes.iter().map(|s| json!({"rows": s.rows, "cols": s.cols, "tables": s.n, "contents": if s.reduced { "empty / one token" } else { "all classes" }})).collect::<Vec<_>>(), "widths": format!("1..={}", self.maxw), "contents": if self.which == 5 { CONTENTS05.to_vec() } else { CONTENTS06.to_vec() }}),
             assumptions: vec!["cell text never contains box drawing characters or '/'".into()],
         }
     }
@@ -473,7 +497,7 @@ impl Prop for P05 {
     }
     fn replay(&self, case: &Value, cx: &mut Cx) {
         let c: Case = serde_json::from_value(case.clone()).expect("C05 case");
-        check05(&table_for(5, c.rows, c.cols, c.index), &c, cx);
+        check05(&table_for(5, c.rows, c.cols, c.index, c.reduced), &c, cx);
     }
 }
 impl Prop for P06 {
@@ -485,6 +509,6 @@ impl Prop for P06 {
     }
     fn replay(&self, case: &Value, cx: &mut Cx) {
         let c: Case = serde_json::from_value(case.clone()).expect("C06 case");
-        check06(&table_for(6, c.rows, c.cols, c.index), &c, cx);
+        check06(&table_for(6, c.rows, c.cols, c.index, c.reduced), &c, cx);
     }
 }
